@@ -386,6 +386,11 @@ def edge_model(wire_loop, cm):
                         except StopIteration:
                             raise _Stop("StopIteration")
                     return {"len": len, "range": range, "iter": iter, "enumerate": enumerate, "zip": zip, "list": list, "tuple": tuple, "reversed": reversed}[fn_](*args)
+                if fn_ == "isinstance" and len(e.args) == 2 and not e.keywords:
+                    cls = e.args[1].elts if isinstance(e.args[1], ast.Tuple) else [e.args[1]]
+                    table = {"list": list, "tuple": tuple, "dict": dict, "str": str, "int": int, "set": set}
+                    if all(isinstance(c_, ast.Name) and c_.id in table for c_ in cls):
+                        return isinstance(ev(e.args[0]), tuple(table[c_.id] for c_ in cls))
                 if fn_ in ("pairwise", "itertools.pairwise") and len(e.args) == 1:
                     x = list(ev(e.args[0]))
                     return list(zip(x, x[1:]))
@@ -431,6 +436,9 @@ def edge_model(wire_loop, cm):
                             break
                 elif isinstance(s_, (ast.Pass,)) or (isinstance(s_, ast.Expr) and isinstance(s_.value, ast.Constant)):
                     pass
+                elif isinstance(s_, ast.Assert):
+                    if not ev(s_.test):
+                        raise _Stop("assertion fails on a model wire")
                 elif isinstance(s_, ast.Continue):
                     raise _Stop("continue")
                 else:
